@@ -67,11 +67,17 @@ type crashRepo struct {
 	count int
 	dead  bool
 	soft  bool // do not panic (the mutation happens in a goroutine the caller cannot recover): just die
+	// faultOnce: mutation number trip fails with an error, once; the storage stays alive
+	faultOnce bool
 	trace []string
 }
 
 func (c *crashRepo) tick(what string) bool {
 	if c.dead {
+		return false
+	}
+	if c.count == c.trip && c.faultOnce {
+		c.trip = -1
 		return false
 	}
 	if c.count == c.trip {
@@ -797,4 +803,145 @@ func (c06cDriver) Run(raw json.RawMessage) Case {
 	term := fmt.Sprintf("mkcase6c %s %d%%N %d%%N %s %s %s", p, in.Old, uint64(nv), coqRunes(oldContent), coqRunes(newContent), coqList(terms))
 	obs := map[string]interface{}{"protocol": proto, "fs_ops": fs.ops, "old": oldContent, "new": newContent, "states": sts, "stored": stored}
 	return Case{Coq: term, Obs: obs, Tags: []string{"protocol:" + proto}, NonTrivial: true, Key: string(raw)}
+}
+
+// ---------------------------------------------------------------------------------------------
+// C06r: "repeating the interrupted action completes it", in the same process: a storage call of a
+// commit fails once (an error, the process lives), the same in-memory entity is committed again.
+
+type c06rDriver struct{}
+
+func init() { register("C06r", c06rDriver{}) }
+
+func (c06rDriver) Gen(r *Rand, tier string) []json.RawMessage {
+	var res []json.RawMessage
+	n := 1
+	if tier == "thorough" {
+		n = 10
+	}
+	for k := 0; k < n; k++ {
+		for _, sc := range []string{"new-bug", "edit-bug"} {
+			for np := 1; np <= 3; np++ {
+				res = append(res, mustJSON(c06Input{Scenario: sc, NPacks: np, NOps: r.Range(1, 3), Salt: r.Intn(1000)}))
+			}
+		}
+	}
+	return res
+}
+
+func (c06rDriver) Run(raw json.RawMessage) Case {
+	var in c06Input
+	if err := json.Unmarshal(raw, &in); err != nil {
+		return Case{Skip: "bad input"}
+	}
+	dir, err := os.MkdirTemp("", "verif-c06r-")
+	if err != nil {
+		panic(err)
+	}
+	defer os.RemoveAll(dir)
+	pre, err := newTestRepo(dir+"/pre", false)
+	if err != nil {
+		panic(err)
+	}
+	var authorIDs []entity.Id
+	for a := 0; a < 3; a++ {
+		id, err := identity.NewIdentity(pre, fmt.Sprintf("author%d", a), fmt.Sprintf("a%d@x.org", a))
+		if err != nil {
+			panic(err)
+		}
+		_ = id.Commit(pre)
+		authorIDs = append(authorIDs, id.Id())
+	}
+	a0, _ := identity.ReadLocal(pre, authorIDs[0])
+	base, _, _ := bug.Create(a0, 1600000000, "existing bug", "m", nil, nil)
+	_, _, _ = bug.AddComment(base, a0, 1600000001, "c", nil, nil)
+	if err := base.Commit(pre); err != nil {
+		panic(err)
+	}
+	baseID := base.Id()
+	_ = pre.Close()
+	type res struct {
+		K        int    `json:"k"`
+		RetryOK  bool   `json:"retry_ok"`
+		IDStable bool   `json:"id_stable"`
+		ReadBack bool   `json:"read_back"`
+		Err      string `json:"err,omitempty"`
+	}
+	// run returns the number of mutations when trip is large
+	run := func(path string, trip int) (int, res) {
+		out := res{K: trip}
+		r, err := openRepo(path)
+		if err != nil {
+			out.Err = err.Error()
+			return 0, out
+		}
+		defer r.Close()
+		cr := &crashRepo{TestedRepo: r, trip: trip, faultOnce: true}
+		authors := make([]*identity.Identity, 3)
+		for i, id := range authorIDs {
+			authors[i], _ = identity.ReadLocal(cr, id)
+		}
+		var b *bug.Bug
+		want := 0
+		if in.Scenario == "new-bug" {
+			b, _, err = bug.Create(authors[0], int64(1600000150+in.Salt), fmt.Sprintf("new bug %d", in.Salt), "m", nil, nil)
+			want = 1
+		} else {
+			b, err = bug.Read(cr, baseID)
+			want = 2
+		}
+		if err != nil {
+			out.Err = err.Error()
+			return 0, out
+		}
+		for p := 0; p < in.NPacks; p++ {
+			for j := 0; j < in.NOps; j++ {
+				if _, _, err := bug.AddComment(b, authors[p%3], int64(1600000200+p*10+j), fmt.Sprintf("comment %d/%d/%d", in.Salt, p, j), nil, nil); err == nil {
+					want++
+				}
+			}
+		}
+		idBefore := b.Id()
+		err = b.Commit(cr)
+		out.IDStable = b.Id() == idBefore
+		if err != nil {
+			err = b.Commit(cr) // the same action, repeated
+			out.IDStable = out.IDStable && b.Id() == idBefore
+		}
+		out.RetryOK = err == nil
+		if err != nil {
+			out.Err = err.Error()
+		}
+		n := cr.count
+		_ = r.Close()
+		r2, err := openRepo(path)
+		if err == nil {
+			rb, err := bug.Read(r2, idBefore)
+			out.ReadBack = err == nil && len(rb.Operations()) == want && rb.Validate() == nil && rb.Id() == idBefore
+			if err != nil {
+				out.Err += " / read back: " + err.Error()
+			} else if !out.ReadBack {
+				out.Err += fmt.Sprintf(" / read back: %d operations, wanted %d, validate=%v", len(rb.Operations()), want, rb.Validate())
+			}
+			_ = r2.Close()
+		}
+		return n, out
+	}
+	ref := dir + "/ref"
+	_ = copyDir(dir+"/pre", ref)
+	n, first := run(ref, 1<<30)
+	if !first.RetryOK || !first.ReadBack {
+		return Case{Skip: "reference run failed: " + first.Err}
+	}
+	var all []res
+	var terms []string
+	for k := 0; k < n; k++ {
+		p := fmt.Sprintf("%s/f%d", dir, k)
+		_ = copyDir(dir+"/pre", p)
+		_, o := run(p, k)
+		all = append(all, o)
+		terms = append(terms, fmt.Sprintf("(%s, %s, %s)", coqBool(o.RetryOK), coqBool(o.IDStable), coqBool(o.ReadBack)))
+		_ = os.RemoveAll(p)
+	}
+	return Case{Coq: "mkcase6r " + coqList(terms), Obs: all, Tags: []string{"scenario:" + in.Scenario, fmt.Sprintf("packs:%d", in.NPacks)}, NonTrivial: n > 2, Key: string(raw)}
 }
